@@ -14,7 +14,7 @@ NS = "Zeep.Bind."
 THEOREMS = [NS + t for t in ("c12_unknown_key_refused", "c12_unknown_key_any_depth", "c12_surplus_positional_refused", "c12_duplicate_refused",
                               "c12_occurs_refused", "c12_missing_required_refused", "c12_missing_required_attribute_refused",
                               "c12_conventions_agree", "c12_skip_omits", "c12_nil_marks", "c12_faithful")] + [
-    "Zeep.BindKw." + t for t in ("c12_two_choice_branches_refused", "c12_kw_unknown_refused", "c12_kw_accepted_keeps_values", "c12_kw_conforming_accepted", "c12_choice_rendered_faithfully")]
+    "Zeep.BindKw." + t for t in ("c12_two_choice_branches_refused", "c12_kw_unknown_refused", "c12_kw_accepted_keeps_values", "c12_kw_conforming_accepted", "c12_choice_rendered_faithfully", "c12_kw_fields_declared")]
 LEVEL = "proof"
 MANIFEST = dict(
     engine="A: lean/ZeepModel/Xsd/Bind.lean, lean/ZeepModel/Xsd/BindKw.lean (+ harness/valgen.py, harness/kwtie.py)",
